@@ -39,7 +39,7 @@ ASSUMPTIONS = [
     "interleavings are enumerated at the synchronisation points the harness owns (thread start, history load, join start, timed releases); preemption inside needs_update is not enumerated",
     "'about one second' is judged with 0.75 s slack (the only wall-clock oracle; the stall watchdog has a 10x margin)",
 ]
-BUDGET = {"quick": (110, 4), "thorough": (2600, 16)}
+BUDGET = {"quick": (110, 4), "thorough": (4000, 16)}
 REQUIRED = ["release_never", "release_in_command", "release_at_join", "release_after_timeout", "notice_printed", "garbage_version", "http_error", "connection_error", "exit_nonzero", "subprocess"]
 
 NOTICE = "Please update to the latest ascmhl version using `pip3 install -U ascmhl`."
